@@ -278,6 +278,7 @@ class Applied:
         self.default_origin = False
         self.own_origin = False
         self.reused = False
+        self.list_mirrors = 0  # Mirror elements executed by transform([...]) calls, repeats included
         self.kinds: List[str] = []
         self.vias: List[str] = []
 
@@ -401,6 +402,7 @@ def apply_tf(ent, tf: List[dict], facts: dict, center_covariant: bool = True) ->
                 out.s *= s
                 out.parity ^= par
                 out.mirrors += par
+                out.list_mirrors += par if t["via"] == "l" else 0
                 out.kinds.append(t["k"])
                 out.vias.append(t["via"])
         i += len(group)
